@@ -217,4 +217,22 @@ theorem matches_document (fl : Flags) (hnl : fl.noLocation = true) (c : Cfg) (d 
     exact ⟨sof, toks ++ [eof], by simp, hall, by simp [hno.1, locOf, hnl]⟩
   rw [this]
 
+
+/-! ### well-formedness does not look at member descriptions -/
+
+theorem wfInputValue_strip (d : InputValueDefinition) : wfInputValue (stripIV d) = wfInputValue d := rfl
+theorem wfFieldDefinition_strip (d : FieldDefinition) : wfFieldDefinition (stripFD d) = wfFieldDefinition d := by
+  simp [wfFieldDefinition, stripFD, List.all_map, Function.comp_def, wfInputValue_strip]
+theorem wfEnumValueDefinition_strip (d : EnumValueDefinition) : wfEnumValueDefinition (stripEV d) = wfEnumValueDefinition d := rfl
+
+theorem wfDefinition_strip (fl : Flags) (d : Definition) : wfDefinition fl (stripDef d) = wfDefinition fl d := by
+  cases d <;> simp [stripDef, wfDefinition, List.all_map, Function.comp_def, wfInputValue_strip, wfFieldDefinition_strip,
+    wfEnumValueDefinition_strip]
+
+theorem isTypeSystem_strip (d : Definition) : isTypeSystem (stripDef d) = isTypeSystem d := by
+  cases d <;> rfl
+
+theorem wfDocument_strip (fl : Flags) (d : Document) : wfDocument fl (stripMemberDescriptions d) = wfDocument fl d := by
+  simp [wfDocument, stripMemberDescriptions, List.all_map, Function.comp_def, wfDefinition_strip, isTypeSystem_strip]
+
 end PyGql.PrintTokens
